@@ -22,6 +22,18 @@ def replay(case: dict) -> list[str]:
     S = bytes.fromhex(case["stream"])
     a = [bytes.fromhex(c) for c in case["chunks_a"]]
     b = [bytes.fromhex(c) for c in case["chunks_b"]]
+    if case.get("variant"):
+        one = lambda f: (f.as_bytes, f.is_valid, f.payload)  # noqa: E731
+        tw = b"".join(b"\x7e" + RHm.wire(f, cfg[0]) + b"\x7e" for f in (X.frame_pool()["addr24"], X.frame_pool()["segbit"])) * 2
+        ref = observe(cfg, a)
+        try:
+            got = {v: fin for v, _, fin in X.feed_variants(lambda: X.new_reader(cfg), b, one, twin_stream=tw)}
+        except AssertionError as ex:
+            return [f"[{X.cfg_name(cfg)}] {ex}"]
+        fin = got.get(case["variant"])
+        if fin != tuple(ref):
+            return [f"[{X.cfg_name(cfg)}] feeding variant {case['variant']!r} returns {_fmt(fin or ())[:3]}, plain one-shot feeding returns {_fmt(ref)[:3]}"]
+        return []
     oa, ob = observe(cfg, a), observe(cfg, b)
     if oa != ob:
         return [f"[{X.cfg_name(cfg)}] stream {S.hex() if len(S) < 200 else '...'}: chunking A returns {_fmt(oa)}, chunking B returns {_fmt(ob)}"]
